@@ -556,9 +556,9 @@ def rule_alignment_tables(ctx, m):
     ret = [s for s in nw.body if s.k == 'return']
     ok = bool(ret) and ret[-1].value == ('tuple', (('un', 'neg', ('var', 'value')), ('un', 'neg', ('var', 'scores')), ('var', 'paths')))
     dpc = _calls(nw.body, lambda d: d == 'dp')
-    ok = ok and len(dpc) == 1 and _kw(dpc[0][1], 'penalty') == ('num', 0) and _kw(dpc[0][1], 'border') == ('var', '_needleman_wunsch_border') \
-        and _kw(dpc[0][1], 'fn') == ('var', 'substitution')
-    ctx.check(ok, 'R-PATH', pm3.path, 'needleman_wunsch', 'negation', 'value and score matrix are negated together; dp is called with the NW border, substitution function and penalty 0', nw.line)
+    ok = ok and len(dpc) == 1 and _kw(dpc[0][1], 'penalty') == ('num', 0) and _kw(dpc[0][1], 'fn') == ('var', 'substitution')
+    ctx.check(ok, 'R-PATH', pm3.path, 'needleman_wunsch', 'negation', 'value and score matrix are negated together; dp is called with the substitution function and penalty 0 '
+              '(the border argument is decided by rule_nw_border)', nw.line)
     pm3, bd = _func(m, 'dtaidistance.alignment', '_needleman_wunsch_border')
     ok = fmt(bd.body[0].cond) == '(ri == 0)' and bd.body[0].then[0].value == ('var', 'ci') and fmt(bd.body[1].cond) == '(ci == 0)' and bd.body[1].then[0].value == ('var', 'ri')
     ctx.check(ok, 'R-PATH', pm3.path, '_needleman_wunsch_border', 'border', 'the border cost of k leading gaps is k', bd.line)
@@ -891,6 +891,25 @@ def rule_series_container(ctx, m):
     ok = "list(series)" in vals and any(v.startswith('np.asarray(series, order=') for v in vals)
     ctx.check(ok, 'R-EFF', pm.path, 'SeriesContainer.__init__', 'private storage',
               'list-like input must be copied into a private list (c_data_compat replaces elements in place) and arrays taken with np.asarray(order="C"); found %s' % vals, f.line)
+    # detected_ndim (the stride handed to the C engine when ndim is not given): 1, or the number of components of the first point
+    import re as _re
+    POINT = _re.compile(r"^len\((self\.)?series\[0\]\[0\]\)$|^len\((self\.)?series\[\(0, 0\)\]\)$|^(self\.)?series\.shape\[(2|-1)\]$|^(self\.)?series\[0\]\.shape\[(1|-1)\]$")
+    nd = 0
+    for s_ in walk_stmts(f.body):
+        if s_.k == 'assign' and s_.target == ('attr', ('var', 'self'), 'detected_ndim'):
+            v = fmt(s_.value)
+            nd += 1
+            inst = 'SeriesContainer.__init__ detected_ndim = %s' % v
+            if v in ('False', '1') or POINT.match(v):
+                ctx.held('R-STRIDE', inst)
+            elif _re.search(r"\.ndim$|^len\((self\.)?series\)$|^len\((self\.)?series\[0\]\)$|^\d+$|\.shape\[0\]$|^len\((self\.)?series\.shape\)$", v):
+                ctx.violation('R-STRIDE', pm.path, 'SeriesContainer.__init__', 'detected_ndim = %s' % v,
+                              'detected_ndim becomes the item stride of the C engine for multivariate containers; it must be the number of components of a point '
+                              '(len(series[0][0])), but is set to %s -- the array rank / a length of another axis' % v, s_.line)
+            else:
+                ctx.undecided('R-STRIDE', inst, 'unrecognised expression for the point dimensionality')
+    ctx.check(nd >= 6, 'R-STRIDE', pm.path, 'SeriesContainer.__init__', 'detected_ndim on every constructor path',
+              'expected detected_ndim to be set on the ndarray, list-of-arrays and list-of-lists paths (found %d stores)' % nd, f.line)
     pm, g = _func(m, 'dtaidistance.util', 'SeriesContainer.c_data_compat')
     repl = [s for s in walk_stmts(g.body) if s.k == 'assign' and s.target[0] == 'idx' and s.target[1] == ('attr', ('var', 'self'), 'series')]
     ok = all(fmt(s.value) == 'serie' for s in repl) and any('order=' in fmt(s.value) for s in walk_stmts(g.body) if s.k == 'assign' and s.target == ('var', 'serie'))
@@ -900,3 +919,113 @@ def rule_series_container(ctx, m):
     ok = any(s.k == 'if' and 'c_contiguous' in fmt(s.cond) and any(t.k == 'assign' and "copy(order='C')" in fmt(t.value) for t in s.then) for s in walk_stmts(v.body))
     ret = [s for s in v.body if s.k == 'return']
     ctx.check(ok and bool(ret) and ret[-1].value == ('var', 'seq'), 'R-SAN', pm.path, 'verify_np_array', 'contiguity check', 'a non C-contiguous array must be replaced by seq.copy(order="C") and returned', v.line)
+
+
+# ------------------------------------------------------------------------------------------ Needleman-Wunsch border / empty rows
+def _indel_components(mod, f):
+    """Second component of every returned pair of a substitution function, constants resolved through single local assignments."""
+    env = {}
+    for s in walk_stmts(f.body):
+        if s.k == 'assign' and s.target[0] == 'var':
+            env.setdefault(s.target[1], []).append(s.value)
+    out = []
+    for s in walk_stmts(f.body):
+        if s.k == 'return' and s.value is not None and s.value[0] == 'tuple' and len(s.value[1]) == 2:
+            v = s.value[1][1]
+            if v[0] == 'var' and len(env.get(v[1], [])) == 1:
+                v = env[v[1]][0]
+            out.append(v)
+    return out
+
+
+def rule_nw_border(ctx, m):
+    """The first row / column of the Needleman-Wunsch matrix is the cost of a run of gaps, so the border handed to dp must charge, per
+    gap, the indel cost that the substitution function charges inside the matrix."""
+    pm, nw = _func(m, 'dtaidistance.alignment', 'needleman_wunsch')
+    _, bf = _func(m, 'dtaidistance.alignment', '_needleman_wunsch_border')
+    rets = [fmt(s.value) for s in walk_stmts(bf.body) if s.k == 'return']
+    ctx.check(sorted(rets) == ['0', 'ci', 'ri'], 'R-TAB', pm.path, '_needleman_wunsch_border', 'unit border',
+              'the unit border is ci on row 0, ri on column 0 (one unit per gap), 0 elsewhere; found %s' % rets, bf.line)
+    call = None
+    for st, c in calls_in(nw.body):
+        if dotted(c[1]) == 'dp':
+            call = (st, c)
+    if call is None:
+        raise AnalysisError('anchor vanished: needleman_wunsch no longer calls dp')
+    st, c = call
+    border = dict((k, v) for k, v in c[3] if k is not None).get('border')
+    env = {}
+    for s_ in walk_stmts(nw.body):
+        if s_.k == 'assign' and s_.target[0] == 'var':
+            env[s_.target[1]] = s_.value
+    while border is not None and border[0] == 'var' and border[1] in env:
+        border = env[border[1]]
+    # indel components of the substitution functions of the module
+    default_f = pm.funcs.get('_default_substitution_fn')
+    unwrap = pm.funcs.get('make_substitution_fn.<locals>._unwrap')
+    factory = pm.funcs.get('make_substitution_fn')
+    if default_f is None or unwrap is None or factory is None:
+        raise AnalysisError('anchor vanished: substitution functions of alignment.py')
+    ind_default = {fmt(x) for x in _indel_components(pm, default_f)}
+    ind_custom = {fmt(x) for x in _indel_components(pm, unwrap)}
+    ctx.count('substitution indel components', len(ind_default) + len(ind_custom))
+    scale = None     # (expression of the per-gap factor) when the border is `G * _needleman_wunsch_border(ri, ci)`
+    if border is not None and border[0] == 'lambda':
+        b = border[2]
+        if b[0] == 'bin' and b[1] == '*':
+            for g_, u in ((b[2], b[3]), (b[3], b[2])):
+                if u[0] == 'call' and dotted(u[1]) == '_needleman_wunsch_border' and [fmt(a) for a in u[2]] == list(border[1]):
+                    scale = g_
+    if border == ('var', '_needleman_wunsch_border'):
+        bad = sorted(x for x in ind_default | ind_custom if x != '1')
+        ctx.check(not bad, 'R-TAB', pm.path, 'needleman_wunsch', 'border gap cost',
+                  'the border charges 1 per gap, but a substitution function built by make_substitution_fn charges `%s` per gap inside the matrix: for gap != 1 the '
+                  'first row/column and the interior disagree and the returned value is not the optimum (e.g. {}-matrix, gap=0.5: "A" vs "BA" gives 0 instead of 0.5)'
+                  % ', '.join(bad), st.line, facts={'witness': {'s1': 'A', 's2': 'BA', 'gap': 0.5}})
+    elif scale is not None:
+        while scale[0] == 'var' and scale[1] in env:
+            scale = env[scale[1]]
+        ok = scale[0] == 'call' and dotted(scale[1]) == 'getattr' and len(scale[2]) == 3 and scale[2][0] == ('var', 'substitution') and scale[2][1][0] == 'str'
+        if not ok:
+            ctx.undecided('R-TAB', 'needleman_wunsch border gap cost', 'unrecognised provenance of the border scale %s' % fmt(scale))
+        else:
+            attr, dflt = scale[2][1][1], fmt(scale[2][2])
+            ctx.check(ind_default == {dflt}, 'R-TAB', pm.path, 'needleman_wunsch', 'border gap cost (default)',
+                      'functions without a `%s` attribute get border unit %s, but _default_substitution_fn charges %s per gap' % (attr, dflt, sorted(ind_default)), st.line)
+            stores = [fmt(s_.value) for s_ in walk_stmts(factory.body) if s_.k == 'assign' and s_.target == ('attr', ('var', '_unwrap'), attr)]
+            ctx.check(len(ind_custom) == 1 and stores == sorted(ind_custom), 'R-TAB', pm.path, 'make_substitution_fn', 'border gap cost (custom)',
+                      'the function built by make_substitution_fn charges %s per gap and must publish exactly that as its `%s` attribute (found %s): otherwise border and '
+                      'interior disagree' % (sorted(ind_custom), attr, stores), factory.line)
+    else:
+        ctx.undecided('R-TAB', 'needleman_wunsch border gap cost', 'unrecognised border argument %s' % (fmt(border) if border else None))
+
+
+def rule_dp_empty_row(ctx, m):
+    """dp's early exit `no cell of this row is <= max_dist -> return inf` reads a sentinel that is also left untouched by a row without any
+    cell; the column range of a row is empty exactly when the second sequence is empty, and then the border column alone is the answer."""
+    pm, f = _func(m, 'dtaidistance.dp', 'dp')
+    exits = []
+    for s in walk_stmts(f.body):
+        if s.k == 'if' and 'last_under_max_dist == -1' in fmt(s.cond).replace('(', '').replace(')', '') and any(t.k == 'return' for t in s.then):
+            exits.append(s)
+    if not exits:
+        raise AnalysisError('anchor vanished: early exit on last_under_max_dist in dp')
+    # an earlier unconditional return for an empty second sequence also settles it
+    early = any(s.k == 'if' and fmt(s.cond).replace('(', '').replace(')', '') in ('c == 0', 'not c', 'len(s2) == 0') and any(t.k == 'return' for t in s.then) for s in f.body)
+    for s in exits:
+        conj = []
+
+        def flat(e):
+            if e[0] == 'bin' and e[1] == 'and':
+                flat(e[2]); flat(e[3])
+            elif e[0] == 'boolop' and e[1] == 'and':
+                for x in e[2]:
+                    flat(x)
+            else:
+                conj.append(fmt(e).replace('(', '').replace(')', ''))
+        flat(s.cond)
+        ok = early or any(x in ('c > 0', 'c >= 1', 'c != 0', 'c', '0 < c', 'lens2 > 0') for x in conj)
+        ctx.check(ok, 'R-PRUNE', pm.path, 'dp', 'empty-row exit',
+                  'the exit `%s` also fires for a row that has no cells at all (second sequence empty): needleman_wunsch("AB", "") returns -inf although '
+                  'the only alignment (two gaps) scores -2, while needleman_wunsch("", "AB") returns -2' % fmt(s.cond), s.line,
+                  facts={'witness': {'s1': 'AB', 's2': ''}})
